@@ -1,5 +1,6 @@
 (* C04 — A failing migration never leaves the version table out of step.   Statement-only file. *)
-From AV Require Import Spec.C04 Proofs.TxnProof.
+From AV Require Import Spec.C04 Proofs.TxnProof Proofs.C04HeadsProof.
+From AV Require Proofs.HeadsProof.
 
 (* the decider applied to what a fresh connection finds after the real command is sound for the property *)
 Theorem C04_decider_sound : forall i o, check_C04 i o = true -> C04_holds i o.
@@ -69,8 +70,8 @@ Print Assumptions C04_exception_kind_irrelevant.
 (* the hypothesis `consistent` is needed: transactional_ddl=True on an implicit-commit database records a migration
    although the enclosing "transaction" failed *)
 Definition ex_steps : list step :=
-  [mkStep [BStmt (DDL (Add 10%N)); BStmt (DML (Add 11%N))] [VIns 1%N] false;
-   mkStep [BStmt (DDL (Add 20%N)); BRaise; BStmt (DML (Add 21%N))] [VUpd 1%N 2%N] false].
+  [mkStep [BStmt (DDL (Txn.Add 10%N)); BStmt (DML (Txn.Add 11%N))] [VIns 1%N] false;
+   mkStep [BStmt (DDL (Txn.Add 20%N)); BRaise; BStmt (DML (Txn.Add 21%N))] [VUpd 1%N 2%N] false].
 Definition ex_db0 : dbstate := mkDb [] false [].
 Theorem C04_inconsistent_refuted :
   exists i, consistent i = false /\ ~ C04_holds i (txn_run i).
@@ -86,26 +87,89 @@ Example C04_all_or_nothing_nonvacuous :
 Proof. vm_compute. repeat split. Qed.
 Example C04_per_migration_nonvacuous :
   let i := mkIn TxDDL true true false
-             [mkStep [BStmt (DDL (Add 10%N)); BStmt (DML (Add 11%N))] [VIns 1%N] false;
-              mkStep [BStmt (DDL (Add 20%N))] [VUpd 1%N 2%N] true] ex_db0 ExcSystemExit in
+             [mkStep [BStmt (DDL (Txn.Add 10%N)); BStmt (DML (Txn.Add 11%N))] [VIns 1%N] false;
+              mkStep [BStmt (DDL (Txn.Add 20%N))] [VUpd 1%N 2%N] true] ex_db0 ExcSystemExit in
   consistent i = true /\ one_txn i = false /\ fail_index i = Some 1%nat /\ no_partial_commit i = true /\
   o_db (txn_run i) = mkDb [11%N; 10%N] true [1%N].
 Proof. vm_compute. repeat split. Qed.
 Example C04_nontransactional_nonvacuous :
   let i := mkIn Pysqlite false false false
-             [mkStep [BStmt (DDL (Add 10%N)); BStmt (DML (Add 11%N))] [VIns 1%N] false;
-              mkStep [BStmt (DDL (Add 20%N)); BStmt (DML (Add 21%N)); BRaise] [VUpd 1%N 2%N] false] ex_db0 ExcException in
+             [mkStep [BStmt (DDL (Txn.Add 10%N)); BStmt (DML (Txn.Add 11%N))] [VIns 1%N] false;
+              mkStep [BStmt (DDL (Txn.Add 20%N)); BStmt (DML (Txn.Add 21%N)); BRaise] [VUpd 1%N 2%N] false] ex_db0 ExcException in
   consistent i = true /\ one_txn i = false /\ fail_index i = Some 1%nat /\
   o_db (txn_run i) = mkDb [20%N; 11%N; 10%N] true [1%N].
 Proof. vm_compute. repeat split. Qed.
 (* a downgrade of r2 that drops an object inside an autocommit section and then fails: r2 stays recorded, the section's
    effect is durable; one transaction per migration and one enclosing transaction alike *)
 Example C04_autocommit_nonvacuous :
-  let st := [mkStep [BStmt (DML (Del 21%N)); BAuto [AStmt (DDL (Del 20%N))]; BRaise] [VUpd 2%N 1%N] false;
-             mkStep [BStmt (DDL (Del 10%N))] [VDel 1%N] false] in
+  let st := [mkStep [BStmt (DML (Txn.Del 21%N)); BAuto [AStmt (DDL (Txn.Del 20%N))]; BRaise] [VUpd 2%N 1%N] false;
+             mkStep [BStmt (DDL (Txn.Del 10%N))] [VDel 1%N] false] in
   let d := mkDb [21%N; 20%N; 10%N] true [2%N] in
   let i := mkIn TxDDL true true false st d ExcException in
   let i' := mkIn TxDDL true false false st d ExcException in
   fail_index i = Some 0%nat /\ no_partial_commit i = false /\ o_db (txn_run i) = mkDb [10%N] true [2%N] /\
   fail_index i' = Some 0%nat /\ committed_count i' = 0%nat /\ o_db (txn_run i') = mkDb [10%N] true [2%N].
 Proof. vm_compute. repeat split. Qed.
+
+(* ================================================================== branched histories, through C03 *)
+(* the decider on histories given as a graph and a plan *)
+Theorem C04g_decider_sound : forall gi o, check_C04g gi o = true -> C04g_holds gi o.
+Proof. exact check_C04g_sound. Qed.
+Print Assumptions C04g_decider_sound.
+
+(* every history (merge points, several roots, depends_on), every plan, bookkeeping by the C03 model of update_to_step *)
+Theorem C04g_main : forall gi, consistent (to_input gi) = true -> C04g_holds gi (txn_run_g gi).
+Proof. exact C04g_main_thm. Qed.
+Print Assumptions C04g_main.
+
+(* after the command — failed or not — the version rows are exactly the maximal applied revisions of the committed
+   migrations: duplicate-free, an antichain, implying exactly the applied set (C03_invariant composed with C04) *)
+Theorem C04_rows_are_heads : forall gi A0, consistent (to_input gi) = true -> gpre gi = true ->
+  Spec.C03.closure (g_graph gi) (vrows (g_db0 gi)) = Some A0 ->
+  wf_refs (g_graph gi) -> ~ cyclic (all_down (g_graph gi)) -> Spec.C03.ndeps_okb (g_graph gi) = true ->
+  gvalid (g_graph gi) A0 (g_msteps gi) ->
+  Spec.C03.rows_ok (g_graph gi) (gapplied (firstn (committed_count (to_input gi)) (g_msteps gi)) A0)
+                   (vrows (o_db (txn_run_g gi))).
+Proof. exact rows_are_heads_thm. Qed.
+Print Assumptions C04_rows_are_heads.
+
+(* a failed upgrade: the failed revision is not among the rows and no row implies it *)
+Theorem C04_failed_upgrade_not_implied : forall gi A0, consistent (to_input gi) = true -> gpre gi = true ->
+  Spec.C03.closure (g_graph gi) (vrows (g_db0 gi)) = Some A0 ->
+  wf_refs (g_graph gi) -> ~ cyclic (all_down (g_graph gi)) -> Spec.C03.ndeps_okb (g_graph gi) = true ->
+  gvalid (g_graph gi) A0 (g_msteps gi) ->
+  forall k m, fail_index (to_input gi) = Some k -> nth_error (g_msteps gi) k = Some m ->
+    forallb ms_up (g_msteps gi) = true ->
+    ~ In (ms_rev m) (vrows (o_db (txn_run_g gi))) /\ ~ implied (g_graph gi) (vrows (o_db (txn_run_g gi))) (ms_rev m).
+Proof. exact failed_upgrade_thm. Qed.
+Print Assumptions C04_failed_upgrade_not_implied.
+
+(* a failed downgrade: the failed revision is still implied by the rows (it is a row, or an ancestor/dependency of one) *)
+Theorem C04_failed_downgrade_still_implied : forall gi A0, consistent (to_input gi) = true -> gpre gi = true ->
+  Spec.C03.closure (g_graph gi) (vrows (g_db0 gi)) = Some A0 ->
+  wf_refs (g_graph gi) -> ~ cyclic (all_down (g_graph gi)) -> Spec.C03.ndeps_okb (g_graph gi) = true ->
+  gvalid (g_graph gi) A0 (g_msteps gi) ->
+  forall k m, fail_index (to_input gi) = Some k -> nth_error (g_msteps gi) k = Some m ->
+    forallb (fun x => negb (ms_up x)) (g_msteps gi) = true ->
+    implied (g_graph gi) (vrows (o_db (txn_run_g gi))) (ms_rev m).
+Proof. exact failed_downgrade_thm. Qed.
+Print Assumptions C04_failed_downgrade_still_implied.
+
+(* non-vacuity: b base; a<-b; c<-b; d merges (b,c,a) — upgrade heads fails in the merge revision d (one transaction per
+   migration): rows = {a, c}, d neither a row nor implied *)
+Definition G4 : graph := [mkRev 0 [] [] [] []; mkRev 1 [0] [] [] []; mkRev 2 [0] [] [] []; mkRev 3 [0;2;1] [] [] []]%N.
+Definition gi4 : ginput :=
+  mkGin G4 Pysqlite false false false
+        [mkMstep 0%N true [BStmt (DDL (Txn.Add 10%N))] false; mkMstep 1%N true [BStmt (DDL (Txn.Add 11%N))] false;
+         mkMstep 2%N true [BStmt (DDL (Txn.Add 12%N))] false; mkMstep 3%N true [BStmt (DDL (Txn.Add 13%N)); BRaise] false]
+        (mkDb [] false []) ExcException.
+Example C04g_nonvacuous :
+  consistent (to_input gi4) = true /\ gpre gi4 = true /\ Spec.C03.closure G4 [] = Some [] /\
+  wf_refs G4 /\ ~ cyclic (all_down G4) /\ Spec.C03.ndeps_okb G4 = true /\ gvalid G4 [] (g_msteps gi4) /\
+  fail_index (to_input gi4) = Some 3%nat /\ forallb ms_up (g_msteps gi4) = true /\
+  vrows (o_db (txn_run_g gi4)) = [1%N; 2%N].
+Proof. split; [vm_compute; reflexivity|]. split; [vm_compute; reflexivity|]. split; [vm_compute; reflexivity|].
+  split; [apply HeadsProof.wf_refsb_spec; vm_compute; reflexivity|].
+  split; [apply (HeadsProof.rankedb_acyclic G4 N.to_nat); vm_compute; reflexivity|].
+  split; [vm_compute; reflexivity|]. split; [apply gvalidb_spec; vm_compute; reflexivity|].
+  vm_compute. repeat split. Qed.
